@@ -1476,8 +1476,9 @@ func (s *SelectStatement) RewriteRegexConditions() {
 		}
 
 		vals, ok := matchExactRegex(rhs.Val.String())
-		if !ok {
-			// Regex didn't match.
+		if !ok || len(vals) == 0 {
+			// Regex didn't match, or it matches no value at all (an empty
+			// character class such as [^\s\S]): leave it to the regex engine.
 			return e
 		}
 
@@ -1493,8 +1494,6 @@ func (s *SelectStatement) RewriteRegexConditions() {
 
 		// Remove leading and trailing ^ and $.
 		switch {
-		case len(vals) == 0:
-			be.RHS = &StringLiteral{}
 		case len(vals) == 1:
 			be.RHS = &StringLiteral{Val: vals[0]}
 		default:
@@ -1562,8 +1561,8 @@ func matchExactRegex(v string) ([]string, bool) {
 	re.Sub = re.Sub[1 : len(re.Sub)-1]
 
 	if len(re.Sub) == 0 {
-		// The regex /^$/
-		return nil, true
+		// The regex /^$/ matches exactly the empty value.
+		return []string{""}, true
 	}
 	return matchRegex(re)
 }
